@@ -219,12 +219,14 @@ class ClosedFormIASolver(IASolverBaseClass):
         # Help the type system knowing that at this point Ns is a Sequence[int]
         assert (not isinstance(Ns, int))
 
+        # Set (and validate) the power first: an invalid power raises and
+        # must leave the solver untouched
+        self.P = P
+
         # This will create a new array so that we can modify self._Ns
         # internally without changing the original Ns variable passed to
         # the solve method.
         self._Ns = np.array(Ns)
-
-        self.P = P
 
         if self._use_best_init is True:
             # xxxxx Case when the best solution should be used xxxxxxxxxxxx
@@ -856,6 +858,9 @@ class IterativeIASolverBaseClass(IASolverBaseClass):
         # This will create a new array so that we can modify self._Ns
         # internally without changing the original Ns variable passed to
         # the randomizeF method.
+        # Set (and validate) the power before anything is changed: an
+        # invalid power raises and must leave the solver untouched
+        self.P = P
         self._Ns = np.array(Ns, dtype=int)
         self._solve_init(Ns, P)  # type: ignore
 
